@@ -290,7 +290,8 @@ def reference(spec_id, o, items):
                         cands.append(('default',))
                     else:
                         cands.append(('err',))
-            if len(cands) == 1:
+            if len(cands) == 1 or all(x == cands[0] for x in cands):
+                # (several spellings with the same outcome -- e.g. every one excluded -- are one outcome)
                 c = cands[0]
             else:
                 c = ('one-of', cands)
